@@ -187,7 +187,35 @@ func rewrite(path string, fc FileCfg, module string) ([]byte, error) {
 				}
 			}
 			if !hasDefault && fc.Chan {
-				unsupported = fmt.Errorf("unsupported construct: blocking select at %v", fset.Position(x.Pos()))
+				// a blocking select whose cases are all plain receives (`case <-ch:`), e.g. a cancellable wait
+				// `select { case <-ctx.Done(): ...; case <-timer.C: ... }`, becomes one scheduler gate:
+				// `switch vsched.Select(ch0, ch1) { case 0: ...; case 1: ... }`
+				var chans []string
+				ok := true
+				for _, c := range x.Body.List {
+					cc := c.(*ast.CommClause)
+					es, isExpr := cc.Comm.(*ast.ExprStmt)
+					if !isExpr {
+						ok = false
+						break
+					}
+					ue, isRecv := es.X.(*ast.UnaryExpr)
+					if !isRecv || ue.Op != token.ARROW {
+						ok = false
+						break
+					}
+					chans = append(chans, string(src[off(ue.X.Pos()):off(ue.X.End())]))
+				}
+				if !ok {
+					unsupported = fmt.Errorf("unsupported construct: blocking select with a send or a value-binding receive at %v", fset.Position(x.Pos()))
+				} else {
+					needSched = true
+					add(off(x.Pos()), off(x.Body.Lbrace), "switch vsched.Select("+strings.Join(chans, ", ")+") ")
+					for i, c := range x.Body.List {
+						cc := c.(*ast.CommClause)
+						add(off(cc.Comm.Pos()), off(cc.Comm.End()), strconv.Itoa(i))
+					}
+				}
 			}
 		case *ast.GoStmt:
 			if fc.Go {
